@@ -202,12 +202,14 @@ Proof.
   intros f bs. unfold write_at, len. rewrite Nat2Z.id. rewrite firstn_all, Nat.sub_diag.
   rewrite skipn_all2 by lia. cbn [zeros repeat app]. now rewrite app_nil_r.
 Qed.
+Print Assumptions write_at_end.
 
 Lemma write_at_prefix : forall a a' rest, length a = length a' -> write_at (a ++ rest) 0 a' = a' ++ rest.
 Proof.
   intros a a' rest H. unfold write_at. change (Z.to_nat 0) with 0%nat.
   cbn [firstn Nat.sub Nat.add zeros repeat app]. rewrite <- H. now rewrite skipn_app_exact.
 Qed.
+Print Assumptions write_at_prefix.
 
 (* ------------------------------------------------------------------------------------ *)
 (* header fields untouched by with_stats / enc_header                                    *)
@@ -486,3 +488,103 @@ Print Assumptions stats_of_returns.
 Theorem stats_of_empty : forall ap fmt h, stats_of ap fmt h [] = mkS 0 [0;0;0] [0;0;0] (repeat 0 15) 0 0.
 Proof. reflexivity. Qed.
 Print Assumptions stats_of_empty.
+
+(* ------------------------------------------------------------------------------------ *)
+(* extrema.  The statement of [stats_of_extrema] given in the task is FALSE of the model:  *)
+(* [ap_ok] does not force [ap] to return a binary64 bit pattern (a Z in [0, 2^64)), and    *)
+(* the negative integer - F64_MAX has the same [f64_key] as F64_MIN, so [fmax F64_MIN] of  *)
+(* it keeps F64_MIN.  Counterexample below, then the statement under the extra hypothesis  *)
+(* that [ap] never returns a negative integer.                                             *)
+(* ------------------------------------------------------------------------------------ *)
+Definition bad_ap (s o x : Z) : Z := - F64_MAX.
+
+Lemma bad_ap_ok : ap_ok bad_ap.
+Proof.
+  unfold ap_ok, bad_ap. split; [intros; lia|]. split; [reflexivity|].
+  intros _ _ _. split; apply Z.leb_le; vm_compute; reflexivity.
+Qed.
+
+Theorem stats_of_extrema_counterexample :
+  ~ (forall ap, ap_ok ap -> forall fmt h r0 recs i, (i < 3)%nat ->
+     let s := aint h (axis_name "scales" i) in let o := aint h (axis_name "offsets" i) in
+     let xs := map (rec_coord i) (r0 :: recs) in
+     nth i (s_max (stats_of ap fmt h (r0 :: recs))) 0 = ap s o (zmax_list (rec_coord i r0) xs)
+     /\ nth i (s_min (stats_of ap fmt h (r0 :: recs))) 0 = ap s o (zmin_list (rec_coord i r0) xs)
+     /\ (forall x, In x xs -> x <= zmax_list (rec_coord i r0) xs) /\ In (zmax_list (rec_coord i r0) xs) xs
+     /\ (forall x, In x xs -> zmin_list (rec_coord i r0) xs <= x) /\ In (zmin_list (rec_coord i r0) xs) xs).
+Proof.
+  intros H. specialize (H bad_ap bad_ap_ok 0 [] [] [] 0%nat ltac:(lia)). cbv zeta in H.
+  destruct H as [H _]. vm_compute in H. discriminate H.
+Qed.
+Print Assumptions stats_of_extrema_counterexample.
+
+Lemma key_MAX : f64_key F64_MAX = 9218868437227405311.
+Proof. vm_compute. reflexivity. Qed.
+Lemma key_MIN : f64_key F64_MIN = -9218868437227405311.
+Proof. vm_compute. reflexivity. Qed.
+
+Lemma fmax_MIN x : f64_key F64_MIN <= f64_key x -> (f64_key x = f64_key F64_MIN -> x = F64_MIN) ->
+  fmax F64_MIN x = x.
+Proof.
+  intros H1 H2. unfold fmax, f64_lt. destruct (f64_key F64_MIN <? f64_key x) eqn:E; [reflexivity|].
+  symmetry. apply H2. lia.
+Qed.
+
+Lemma fmin_MAX x : f64_key x <= f64_key F64_MAX -> fmin F64_MAX x = x.
+Proof.
+  intros H1. unfold fmin, f64_lt. destruct (f64_key x <? f64_key F64_MAX) eqn:E; [reflexivity|].
+  assert (f64_key x = f64_key F64_MAX) as K by lia. clear H1 E.
+  rewrite key_MAX in K. unfold f64_key in K. unfold F64_MAX.
+  change (2 ^ 63) with 9223372036854775808 in K.
+  destruct (x <? 9223372036854775808) eqn:Ex; lia.
+Qed.
+
+Lemma nonneg_key_MIN x : 0 <= x -> f64_key x = f64_key F64_MIN -> x = F64_MIN.
+Proof.
+  intros Hx K. rewrite key_MIN in K. unfold f64_key in K. unfold F64_MIN.
+  change (2 ^ 63) with 9223372036854775808 in K.
+  destruct (x <? 9223372036854775808) eqn:Ex; lia.
+Qed.
+
+(* the most general form: ap never returns a different integer of the same rank as F64_MIN *)
+Lemma stats_of_extrema_gen : forall ap, ap_ok ap ->
+  (forall s o x, f64_key (ap s o x) = f64_key F64_MIN -> ap s o x = F64_MIN) ->
+  forall fmt h r0 recs i, (i < 3)%nat ->
+  let s := aint h (axis_name "scales" i) in let o := aint h (axis_name "offsets" i) in
+  let xs := map (rec_coord i) (r0 :: recs) in
+  nth i (s_max (stats_of ap fmt h (r0 :: recs))) 0 = ap s o (zmax_list (rec_coord i r0) xs)
+  /\ nth i (s_min (stats_of ap fmt h (r0 :: recs))) 0 = ap s o (zmin_list (rec_coord i r0) xs)
+  /\ (forall x, In x xs -> x <= zmax_list (rec_coord i r0) xs) /\ In (zmax_list (rec_coord i r0) xs) xs
+  /\ (forall x, In x xs -> zmin_list (rec_coord i r0) xs <= x) /\ In (zmin_list (rec_coord i r0) xs) xs.
+Proof.
+  intros ap (Hmono & Hinj & Hrng) Hmin fmt h r0 recs i Hi s o xs.
+  assert (nth i (s_max (stats_of ap fmt h (r0 :: recs))) 0
+          = fmax F64_MIN (ap s o (zmax_list (rec_coord i r0) xs))
+       /\ nth i (s_min (stats_of ap fmt h (r0 :: recs))) 0
+          = fmin F64_MAX (ap s o (zmin_list (rec_coord i r0) xs))) as [E1 E2].
+  { unfold stats_of, grow, stats0. cbv beta zeta. cbn [s_max s_min]. rewrite !map_seq3.
+    destruct i as [|[|[|i]]]; [split; reflexivity ..|lia]. }
+  rewrite E1, E2.
+  split; [apply fmax_MIN; [apply Hrng|apply Hmin]|].
+  split; [apply fmin_MAX; apply Hrng|].
+  destruct (zmax_list_head (rec_coord i r0) (map (rec_coord i) recs)) as [M1 M2].
+  destruct (zmin_list_head (rec_coord i r0) (map (rec_coord i) recs)) as [N1 N2].
+  repeat split; assumption.
+Qed.
+Print Assumptions stats_of_extrema_gen.
+
+(* closest true statement: one more hypothesis, [ap] returns a non-negative integer (as every
+   bit pattern is); everything else as in the task *)
+Theorem stats_of_extrema_partial : forall ap, ap_ok ap -> (forall s o x, 0 <= ap s o x) ->
+  forall fmt h r0 recs i, (i < 3)%nat ->
+  let s := aint h (axis_name "scales" i) in let o := aint h (axis_name "offsets" i) in
+  let xs := map (rec_coord i) (r0 :: recs) in
+  nth i (s_max (stats_of ap fmt h (r0 :: recs))) 0 = ap s o (zmax_list (rec_coord i r0) xs)
+  /\ nth i (s_min (stats_of ap fmt h (r0 :: recs))) 0 = ap s o (zmin_list (rec_coord i r0) xs)
+  /\ (forall x, In x xs -> x <= zmax_list (rec_coord i r0) xs) /\ In (zmax_list (rec_coord i r0) xs) xs
+  /\ (forall x, In x xs -> zmin_list (rec_coord i r0) xs <= x) /\ In (zmin_list (rec_coord i r0) xs) xs.
+Proof.
+  intros ap Hap Hnn. apply (stats_of_extrema_gen ap Hap).
+  intros s o x. apply nonneg_key_MIN, Hnn.
+Qed.
+Print Assumptions stats_of_extrema_partial.
